@@ -50,7 +50,7 @@ SplitFailures(ev) ==
         cs == [k \in dom |-> CountIn(o.sens, k)]
         ca == [k \in dom |-> CountIn(o.all, k)]
         leak == O_NoLeak(SetOf(o.pub), SetOf(o.ptok))
-        part == O_Partition(dom, cp, cs, ca)
+        part == O_Partition(dom, cp, cs, ca) \cup O_TokBoth(SetOf(o.ptok), SetOf(o.stok))
     IN  (IF leak # {} THEN {[prop |-> "NoLeak", kinds |-> leak]} ELSE {})
         \cup (IF part # {} THEN {[prop |-> "Partition", kinds |-> part]} ELSE {})
 
